@@ -39,6 +39,9 @@ PTS = [0.25, 1, 20, 0.1, 'same']
 def run_timeline(rec, case):
     rng = gen.mkrng('c07', case['seed'], case['i'])
     srv = rng.choice(['T', 'A'])
+    if srv == 'A' and case.get('aio'):
+        srv = case['aio']    # asyncio server behind the aiohttp adapter
+        rec.count('histories_on_aiohttp_adapter')
     pi = rng.choice(PIS)
     pt = rng.choice(PTS)
     if pt == 'same':
@@ -282,6 +285,8 @@ def run_shard(spec):
     rec = Rec()
     cases = [{'seed': spec['seed'], 'i': spec['shard'] * 1000000 + k}
              for k in range(spec['n'])]
+    for c in cases[::2]:
+        c['aio'] = 'H'
     for case in cases:
         scen.run_cases(rec, [case], run_timeline)
         if rec._vkeys.get('runaway-heartbeat-activity', 0) >= 2 or \
